@@ -35,6 +35,13 @@ def main(path, start):
             out['vn'] = float(ie.numba_mi(Y.reshape(-1, 1).copy(), X.copy(), name, float(r)))
             if c.get('alt') is not None:
                 out['vnalt'] = float(ie.numba_mi(Y2.reshape(-1, 1).copy(), X.copy(), name, float(r)))
+            # one level further up: conduct_feature_ranking(vector, vector, args) as get_importances_estimate_pairwise calls it, with
+            # the ratio in `args`; the worker process serves many cases with other ratios before this one (a library session)
+            import types
+            a = types.SimpleNamespace(heuristic=name, mi_stratified_sampling_ratio=float(r))
+            out['vc'] = float(ie.conduct_feature_ranking(Y.reshape(-1, 1).copy(), X.copy(), a))
+            if c.get('alt') is not None:
+                out['vcalt'] = float(ie.conduct_feature_ranking(Y2.reshape(-1, 1).copy(), X.copy(), a))
             if c.get('sample'):
                 fv, _ = m.numba_unique(X)
                 Ys, Xs = m.stratified_subsampling(Y, X, r, fv)
